@@ -187,6 +187,7 @@ CHECKS = {
         "legs": [
             enum("exhaustive", "TestC12Exhaustive", {"shards": 8}, {"shards": 16, "timeout": 6000}),
             rapid("random", "TestC12Random", {"checks": 30000, "shards": 4}, {"checks": 300000, "shards": 16, "timeout": 6000}),
+            rapid("chain", "TestC12Chain", {"checks": 15000, "shards": 2}, {"checks": 150000, "shards": 8, "timeout": 6000}),
         ],
     },
     "C14": {
